@@ -11,7 +11,7 @@ RULE = ("exhaustive: every expression with <= 4 nodes over {+ (2-3 children), * 
         "expression and the ordered list of hoisted assignments (new variables h0, h1, ... in the order new_var_func is called). "
         "Oracle on the real callbacks: every hoisted right-hand side mentions no free variable; every new variable is assigned "
         "exactly once; substituting the assignments back and evaluating at 6 random integer points under 2 function tables gives "
-        "the original value. Non-trivial: at least one assignment was hoisted.")
+        "the original value (powers of powers with exponents 0.5 / 1.5: 12 points incl. negative bases, floating point with tolerance). Non-trivial: at least one assignment was hoisted.")
 TRUSTED = ["products are evaluated over the integers (commutative); the property's value claim is for commutative arithmetic"]
 
 ATOMS = [["v", "x"], ["v", "y"], ["c", 2]]
@@ -81,6 +81,15 @@ def cases(rng, tier):
         shapes = [["*", [s_, ["call", "f", [p_], []]]], ["+", [p_, s_]], ["call", "f", [s_, p_], []],
                   ["+", [s_, ["*", [["c", 2], s_]]]], ["*", [p_, p_]]]
         yield {"op": "C18.collapse", "tag": "same-constants-twice", "expr": rng.choice(shapes), "free": ["x", "y"]}
+    # powers of powers, with exponents that are not integers (|y| written (y**2)**0.5): merging the exponents is wrong
+    # for a negative base
+    exps = [["c", 2], ["cf", "0.5"], ["v", "a"], ["v", "b"], ["c", 3], ["cf", "1.5"]]
+    for _ in range(60 if tier == "quick" else 600):
+        base = rng.choice([["v", "x"], ["+", [["v", "x"], ["*", [["c", -1], ["v", "y"]]]]], ["v", "z"]])
+        pw = ["**", ["**", base, rng.choice(exps)], rng.choice(exps)]
+        shape = rng.choice([pw, ["*", [["v", "w"], pw]], ["+", [pw, ["*", [["v", "a"], ["v", "b"]]]]],
+                            ["call", "f", [pw], []]])
+        yield {"op": "C18.collapse", "tag": "power-of-power", "expr": shape, "free": rng.choice([["x", "y"], ["x"], ["x", "y", "z"]])}
     for _ in range(2000 if tier == "quick" else 30000):
         e = rand_expr(rng, rng.randint(1, 4))
         names = ["x", "y", "z", "w", "a", "b", "f", "g"]
@@ -175,6 +184,8 @@ def evaluate(j, env, funs):
     k = j[0]
     if k == "c":
         return j[1]
+    if k == "cf":
+        return float(j[1])
     if k == "v":
         return env[j[1]]
     if k == "+":
@@ -215,11 +226,16 @@ def oracle(case, out):
     for n in new_names:
         pass
     rng = random.Random(len(str(case["expr"])))
-    for trial in range(6):
+    inexact = case.get("tag") == "power-of-power"
+    for trial in range(12 if inexact else 6):
         env = {n: rng.randint(-3, 4) for n in ["x", "y", "z", "w", "a", "b"]}
+        if inexact:
+            env.update(a=rng.choice([2, 0.5, 3, 1.5]), b=rng.choice([2, 0.5, 3, 1.5]), x=rng.choice([-3, -2, 2, 3]))
         salt = rng.randint(1, 5)
 
         def funs(name, args, kw, salt=salt):
+            if inexact:         # floats / complex numbers: an injective-enough smooth function
+                return sum((i + 2) * a for i, a in enumerate(args)) + sum(len(k) * v for k, v in kw) + len(name) * salt
             return (sum((i + 2) * a for i, a in enumerate(args)) + sum(len(k) * v for k, v in kw) + len(name) * salt) % 7 - 3
         try:
             want = evaluate(case["expr"], env, funs)
@@ -229,7 +245,7 @@ def oracle(case, out):
             got = evaluate(out["expr"], env2, funs)
         except (KeyError, ZeroDivisionError, ValueError, OverflowError, TypeError):
             continue
-        if got != want:
+        if (abs(got - want) > 1e-9 * max(1.0, abs(want))) if inexact else (got != want):
             return {"what": f"value changed at {env}: {want} -> {got}", "sig": "value"}
     return None
 
